@@ -4,6 +4,9 @@
 #define XV_XPOLL_GHOST_H
 uint8_t xv_g_byte;         /* ghost constant: entry value of byte xv_keep of the fd_regs / bell_regs array */
 long xv_w;                 /* second arbitrary index; requires clauses of some contracts make it a WITNESS (a free slot) */
+long xv_bw;                /* second arbitrary index into bell_regs / witness of a free bell slot */
+uint8_t xv_g_bbyte;        /* ghost constant: entry value of byte xv_keep of the bell_regs array */
+int xv_g_i3, xv_g_refs;    /* more ghost constants */
 long xv_b;                 /* ghost index into bell_regs (xv_j of prelude.h is the index into fd_regs) */
 int xv_g_fd, xv_g_ev;      /* ghost constants: entry value of fd_regs[xv_j] */
 _Bool xv_g_bfree, xv_g_bring;   /* ghost constants: entry value of bell_regs[xv_b] */
